@@ -371,10 +371,18 @@ func lcRun(id int, sc *lcScen, base string) {
 			spawned[starterRole] = true
 			expect(starterRole, "call")
 			release(starterRole, "call")
-			if a.R == "ok" {
-				expect(starterRole, "Start.begin")
-			} else {
-				expect(starterRole, "return")
+			// record what the code did, whatever the model expected: a Start accepted in a state other than Inactive
+			// is a violation by itself (C10_start_only_inactive), not merely a divergence from the schedule
+			got := expect(starterRole, "Start.begin", "return")
+			observed := "refused"
+			if got == "Start.begin" {
+				observed = "ok"
+			}
+			if problem == "" && (observed == "ok") != (a.R == "ok") {
+				vEmit(vmap{"ev": "Step", "i": si, "a": "StartCall", "r": observed, "role": "", "phase": "", "why": "", "nres": 0,
+					"st0": stBefore, "st": lcStateName(ds.GetState()), "flag": ctl.isSourceActive, "mst": step.St, "mflag": step.Flag,
+					"afterstops": false, "quiet": false, "census": lcCensusDelta(census0), "ret": returned[starterRole]})
+				problem = fmt.Sprintf("%s: Start was %s, the model says %s", starterRole, observed, a.R)
 			}
 		case "StartSample":
 			release(starterRole, "Start.begin")
@@ -616,7 +624,11 @@ func TestVerifLifecycle(t *testing.T) {
 	}
 	defer os.RemoveAll(base)
 	VPoint, VEvent = lcVPoint, lcVEvent // installed once; lc.active gates them
+	skip := vEnvInt("VERIF_SKIP", 0) // resume after a scenario that made the process die (a panic in a goroutine of the code)
 	for i := range scens {
+		if i < skip {
+			continue
+		}
 		lcRun(i+1, &scens[i], base)
 	}
 }
